@@ -50,6 +50,11 @@ pub enum How {
     FailLongPdu,
     FailPtype,
     ExtFailSmallBuffer,
+    ExtFailLongPdu,
+    /// header + extensions alone exceed the maximum GSE length
+    ExtFailHugeExtension,
+    /// first fragment refused: buffer holds the complete-packet header but not the first-fragment header
+    FailBetweenHeaders,
 }
 
 #[derive(Clone, Debug, PartialEq, Eq)]
@@ -111,6 +116,24 @@ pub fn send(enc: &mut Encapsulator<FastCrc>, l: Lbl, how: How, long_pdu: &[u8]) 
         How::ExtFailSmallBuffer => {
             let mut b = vec![0u8; 4];
             let o = do_encap_ext(enc, &small, 1, 0x0800, l, &mut b, &ext);
+            (o, b)
+        }
+        How::ExtFailLongPdu => {
+            let mut b = vec![0u8; 64];
+            let o = do_encap_ext(enc, long_pdu, 1, 0x0800, l, &mut b, &ext);
+            (o, b)
+        }
+        How::ExtFailHugeExtension => {
+            let mut b = vec![0u8; 4300];
+            let huge = vec![(0x0013u16, vec![0x7E; 4100])];
+            let o = do_encap_ext(enc, &small, 1, 0x0800, l, &mut b, &huge);
+            (o, b)
+        }
+        How::FailBetweenHeaders => {
+            // 8-byte PDU with a 6-byte label: complete needs 18, first fragment needs 13; a 5..6-byte buffer
+            // fails in the first-fragment branch for every label kind
+            let mut b = vec![0u8; 6];
+            let o = do_encap(enc, &small, 1, 0x0800, l, &mut b);
             (o, b)
         }
     }
@@ -247,12 +270,12 @@ impl System for Sys {
 }
 
 pub fn all_hows() -> Vec<How> {
-    vec![How::Complete, How::FirstFrag, How::ExtComplete, How::ExtFirstFrag, How::FailSmallBuffer, How::FailLongPdu, How::FailPtype, How::ExtFailSmallBuffer]
+    vec![How::Complete, How::FirstFrag, How::ExtComplete, How::ExtFirstFrag, How::FailSmallBuffer, How::FailLongPdu, How::FailPtype, How::ExtFailSmallBuffer, How::ExtFailLongPdu, How::ExtFailHugeExtension, How::FailBetweenHeaders]
 }
 
 pub fn run(tier: Tier) -> i32 {
     let rep = Report::new("C15", tier);
-    rep.set_rule("closure (breadth-first, no depth bound) of the real Encapsulator under the op alphabet: send(label in {two 6-byte, two 3-byte, broadcast, explicit re-use} x how in {complete, first fragment, encap_ext complete, encap_ext first fragment, fail: small buffer, fail: PDU too long, fail: protocol type, encap_ext fail: small buffer}), zero label, reset, disable, enable, enable-with-max(N in {0,1,2,3,255}; thorough adds 4, 7, 128, 254); state = real encapsulator value + wire monitor; every emitted start/complete packet is judged by the monitor; distinct = (op kind, outcome)");
+    rep.set_rule("closure (breadth-first, no depth bound) of the real Encapsulator under the op alphabet: send(label in {two 6-byte, two 3-byte, broadcast, explicit re-use} x how in {complete, first fragment, encap_ext complete, encap_ext first fragment, fail: small buffer, fail: PDU too long, fail: protocol type, fail: buffer between the two header sizes, encap_ext fail: small buffer / PDU too long / extensions larger than a GSE packet}), zero label, reset, disable, enable, enable-with-max(N in {0,1,2,3,255}; thorough adds 4, 7, 128, 254); state = real encapsulator value + wire monitor; every emitted start/complete packet is judged by the monitor; distinct = (op kind, outcome)");
     rep.assume("the count of consecutive re-uses restarts when the re-use configuration is changed (the statement bounds re-uses 'with a maximum of N configured')");
     rep.assume("label alphabet of 6 letters; N drawn from the listed values");
     let sys = Sys {
